@@ -67,7 +67,7 @@ def run(ck):
     bins = ck.build_harness(["c10"])
     r = lib.rng(ck.seed)
     quick = ck.tier == "quick"
-    progs = list(CORPUS) + [jsgen.gen_program(r, 3, strict=(i % 4 == 0)) for i in range(40 if quick else 500)]
+    progs = list(CORPUS) + [jsgen.gen_program(r, 3, strict=(i % 4 == 0)) for i in range(40 if quick else 300)]
     src = []
     for i, p in enumerate(progs):
         for st in (0, 1):
